@@ -497,7 +497,7 @@ def run(ctx):
         "(2) that reference table recomputed under PYTHONHASHSEED in {0,1,2,12345,random}; (3) %d multi-thread workloads under a controlled "
         "scheduler (scheduling points = line events in optimisation/colors/cm_colors/color_parser, call events elsewhere in the package): "
         "every schedule with <= 1 pre-emption at line granularity%s. non-trivial = sequences of >= 2 operations and schedules with >= 1 pre-emption."
-        % (depth, len(ops), len(WORKLOADS), "" if q else " and <= 2 pre-emptions at loop granularity (one point per loop iteration + calls of core/CLI functions)")
+        % (depth, len(ops), len(WORKLOADS), "" if q else " and <= 2 pre-emptions at loop granularity (one point per loop iteration + calls of core/CLI functions) on one thread order of each workload")
     )
     # ---- references (fresh exec per operation) and hash seeds ----------------------------------------
     all_ops = sorted(set(ops) | {n for w in WORKLOADS.values() for n in w} | {"cli:empty_dir", "cli:only_cm_files", "bulk:raises_midway"}
@@ -620,12 +620,16 @@ def run(ctx):
     ctx.sample({"subcheck": "schedule", "workload": "W1", "ops": WORKLOADS["W1"], "schedule": {"412": 1}, "granularity": "line"})
     ctx.cov["schedule_outcomes_note"] = "one distinct outcome per workload (the sequential results) is the expected, non-vacuous reading: see DESIGN.md 4/C15"
     if not q:
-        # <= 2 pre-emptions at loop granularity (one point per loop iteration + calls of core/CLI functions), every workload
+        # <= 2 pre-emptions at loop granularity (one point per loop iteration + calls of core/CLI functions)
         t2 = 0
         jobs = []
         per2 = {}
         lf, cf, loops = _gran("loop")
+        # (one thread order per workload: the mirrored order differs only in which thread starts, which the first pre-emption
+        # already varies; all orders are explored in the <= 1 pre-emption pass above)
         for wname, names in WORKLOADS.items():
+            if wname not in ("W1", "W2r", "W3", "W4", "W6", "W5"):
+                continue
             st, r = forked(exec_schedule, names, {}, lf, False, cf, loops)
             pts = r["points"]
             firsts = [(i, alt) for (i, tid, mask) in pts for alt in range(len(names)) if alt != tid and mask >> alt & 1]
